@@ -38,6 +38,10 @@ def main():
         for t in spec["instants"]:
             rec = {"utc": utc, "t": t}
             try:
+                rec["year_here"] = conv(t).tm_year          # the year of the broken-down time that would be stored
+            except (OverflowError, ValueError, OSError):
+                rec["year_here"] = None
+            try:
                 before = f.getinfo("/t.txt", namespaces=["details"]).raw["details"]
                 f.setinfo("/t.txt", {"details": {"created": t, "modified": t, "accessed": t}})
                 rec["set"] = "ok"
